@@ -45,6 +45,16 @@ def preset_table(prog, ctx):
         if isinstance(st, ast.Assign) and isinstance(st.targets[0], ast.Attribute) and st.targets[0].attr.startswith("correct_") \
                 and isinstance(st.value, ast.Attribute) and dotted(st.value.value) == "strategy":
             flags[st.targets[0].attr] = st.value.attr
+    # the same wiring written as a loop over the fields:  for k, v in strategy._asdict().items(): setattr(args, "correct_" + k, v)
+    for lp in [x for x in walk_no_nested(f) if isinstance(x, ast.For)]:
+        if "strategy._asdict()" in src(lp.iter) and isinstance(lp.target, ast.Tuple) and len(lp.target.elts) == 2:
+            kv, vv = (src(e) for e in lp.target.elts)
+            for c in ast.walk(lp):
+                if isinstance(c, ast.Call) and call_name(c) == "setattr" and len(c.args) == 3 and src(c.args[0]) == "args" and src(c.args[2]) == vv \
+                        and isinstance(c.args[1], ast.BinOp) and isinstance(c.args[1].op, ast.Add) and isinstance(c.args[1].left, ast.Constant) \
+                        and src(c.args[1].right) == kv:
+                    for fld in fields:
+                        flags[str(c.args[1].left.value) + fld] = fld
     if "none" not in presets:
         ctx.fail("B1", f, f._qualname, "strategies", "preset 'none' is missing")
     else:
@@ -84,7 +94,7 @@ def b1(prog, ctx, flags):
         ctx.note("B1: flag %s is set from the preset table but not consumed by ExonCorrector" % fl_)
     ctx.floor("B1", "correction flags consumed", len(used), 3)
 
-    pe = prog.func(EC, "ExonCorrector.process_events")
+    pe = prog.func_inlined(EC, "ExonCorrector.process_events")
     cm = prog.func(EC, "ExonCorrector.correct_misalignments")
     defs = local_defs(pe)
     # --- idiom (i): flag-guarded insertions into a local list that starts empty
@@ -244,12 +254,23 @@ def b1(prog, ctx, flags):
         ctx.fail("B1", pe, pe._qualname, "corrected_read_region", "corrected_read_region is not initialised from read_region")
     # correct_assigned_read rebuilds exons only from that pair; early exits return the read's own exons
     ca = prog.func(EC, "ExonCorrector.correct_assigned_read")
+    # names bound to the pair returned by correct_misalignments
+    pair = set()
+    for st_ in walk_no_nested(ca):
+        if isinstance(st_, ast.Assign) and isinstance(st_.value, ast.Call) and (call_name(st_.value) or "").endswith("correct_misalignments"):
+            for t_ in st_.targets:
+                pair |= {x.id for x in ast.walk(t_) if isinstance(x, ast.Name)}
+    allowed_names = pair | {"junctions_from_blocks", "corrected_exons"}
     for r in walk_no_nested(ca):
         if isinstance(r, ast.Return) and src(r.value) not in ("corrected_exons", "alignment_info.read_exons"):
+            # an exon list written directly from the (region, introns) pair is the same thing without the local
+            if {x.id for x in ast.walk(r.value) if isinstance(x, ast.Name)} <= allowed_names and pair:
+                continue
             ctx.fail("B1", r, ca._qualname, src(r), "unexpected return value of correct_assigned_read")
     cdefs = [s for s in walk_no_nested(ca) if isinstance(s, (ast.Assign, ast.AugAssign)) and
              src(s.targets[0] if isinstance(s, ast.Assign) else s.target) == "corrected_exons"]
-    bad = [s for s in cdefs if {x.id for x in ast.walk(s.value) if isinstance(x, ast.Name)} - {"read_region", "new_introns", "junctions_from_blocks"}]
+    cdefs += [r for r in walk_no_nested(ca) if isinstance(r, ast.Return) and src(r.value) not in ("corrected_exons", "alignment_info.read_exons")]
+    bad = [s for s in cdefs if {x.id for x in ast.walk(s.value) if isinstance(x, ast.Name)} - (pair | {"junctions_from_blocks"}) - {"read_region", "new_introns"}]
     if bad or len(cdefs) < 3:
         ctx.fail("B1", (bad or [ca])[0], ca._qualname, src((bad or [ca])[0]), "corrected exons are built from something else than (read_region, new_introns)")
     else:
@@ -257,7 +278,7 @@ def b1(prog, ctx, flags):
 
 
 def b2(prog, ctx):
-    pe = prog.func(EC, "ExonCorrector.process_events")
+    pe = prog.func_inlined(EC, "ExonCorrector.process_events")
     defs = local_defs(pe)
     # same index for read and reference intron
     ri = [d for d in defs.get("read_intron", [])]
@@ -276,10 +297,14 @@ def b2(prog, ctx):
         for kind, val, st in ds:
             leaves = []
 
-            def rec(e):
+            def rec(e, depth=0):
                 if isinstance(e, ast.IfExp):
-                    rec(e.body)
-                    rec(e.orelse)
+                    rec(e.body, depth)
+                    rec(e.orelse, depth)
+                elif isinstance(e, ast.Name) and e.id in defs and e.id not in (name,) and depth < 4 \
+                        and all(k == "assign" for k, _v, _s in defs[e.id]):
+                    for _k, v2, _s in defs[e.id]:       # a local that only carries the chosen site (e.g. the result of an inlined helper)
+                        rec(v2, depth + 1)
                 else:
                     leaves.append(e)
             rec(val)
@@ -301,8 +326,25 @@ def b2(prog, ctx):
             n += 1
             l, r = (src(e) for e in st.value.elts)
             keep_l, keep_r = l == "corrected_read_region[0]", r == "corrected_read_region[1]"
-            facts = " ".join(src(t) for t, pol in flow.guard_facts(st, stop=pe) if pol)
-            side = "left" if "_left" in facts and "_right" not in facts else ("right" if "_right" in facts else "?")
+            # which event types can be current here: `== X` / `in (X, Y)` narrow the set, a failed `== X` removes X
+            possible = None
+            removed = set()
+            for t, pol in flow.guard_facts(st, stop=pe):
+                if isinstance(t, ast.Compare) and len(t.ops) == 1 and src(t.left).endswith("event_type"):
+                    mems = {x.attr for x in ast.walk(t.comparators[0]) if isinstance(x, ast.Attribute) and dotted(x.value) == "MatchEventSubtype"}
+                    if not mems:
+                        continue
+                    if isinstance(t.ops[0], (ast.Eq, ast.In)) and pol:
+                        possible = mems if possible is None else possible & mems
+                    elif isinstance(t.ops[0], (ast.Eq, ast.In)) and not pol:
+                        removed |= mems
+                    elif isinstance(t.ops[0], (ast.NotEq, ast.NotIn)) and not pol:
+                        possible = mems if possible is None else possible & mems
+                    elif isinstance(t.ops[0], (ast.NotEq, ast.NotIn)) and pol:
+                        removed |= mems
+            possible = (possible or set()) - removed
+            sides = {"left" if m_.endswith("_left") else ("right" if m_.endswith("_right") else "?") for m_ in possible}
+            side = sides.pop() if len(sides) == 1 else "?"
             if keep_l == keep_r or (side == "left" and keep_l) or (side == "right" and keep_r) or side == "?":
                 ctx.fail("B2", st, pe._qualname, src(st), "a %s-side event must change only the %s end of the read region and keep the other"
                          % (side, side))
@@ -318,7 +360,13 @@ def b3(prog, ctx):
     if len(writes) != 1 or not isinstance(writes[0].args[0], ast.BinOp) or not isinstance(writes[0].args[0].op, ast.Mod):
         raise AnalysisError("BEDPrinter.add_read_info: single %-formatted write not found")
     fmt_str = writes[0].args[0].left
-    args = writes[0].args[0].right
+    from ..engine.dataflow import single_def_env
+    from ..engine import symexec
+    env = single_def_env(f, exclude=("exon_blocks",))     # the block list itself is the subject of the identities
+    args = symexec.subst(writes[0].args[0].right, env)
+    for n_ in ast.walk(args):
+        for ch in ast.iter_child_nodes(n_):
+            ch._parent = n_
     if not (isinstance(fmt_str, ast.Constant) and isinstance(args, ast.Tuple)):
         raise AnalysisError("BEDPrinter.add_read_info: format is not literal % tuple")
     cols = fmt_str.value.rstrip("\n").split("\t")
@@ -424,7 +472,7 @@ def b4(prog, ctx):
 
 def b6(prog, ctx):
     """An annotated intron enters the corrected intron chain only where the corrected read region is known to span it."""
-    pe = prog.func(EC, "ExonCorrector.process_events")
+    pe = prog.func_inlined(EC, "ExonCorrector.process_events")
     n = 0
     for st in walk_no_nested(pe):
         tgt = None
@@ -438,8 +486,13 @@ def b6(prog, ctx):
         n += 1
         blk = st._parent
         siblings = getattr(blk, "body", []) if st in getattr(blk, "body", []) else getattr(blk, "orelse", [])
-        moves_region = [x for x in siblings if isinstance(x, ast.Assign) and dotted(x.targets[0]) == "corrected_read_region"
-                        and "isoform_region[" in src(x.value)]
+        def _moves(x):
+            if isinstance(x, ast.Assign) and dotted(x.targets[0]) == "corrected_read_region" and "isoform_region[" in src(x.value):
+                return True
+            if isinstance(x, ast.If) and x.orelse:
+                return any(_moves(y) for y in x.body) and any(_moves(y) for y in x.orelse)
+            return False
+        moves_region = [x for x in siblings if _moves(x)]
         guards = flow.guards_of(st, stop=pe)
         contain = [g for g in guards if g.polarity and any(isinstance(c, ast.Call) and (call_name(c) or "").split(".")[-1] in
                                                             ("contains_well_inside", "contains", "contains_approx")
@@ -456,7 +509,7 @@ def b6(prog, ctx):
             ctx.fail("B6", st, pe._qualname, src(st)[:100], "annotated introns are inserted into the corrected chain here without the read "
                      "region being moved to the isoform's end and without a guard that the read region contains them: an intron reaching "
                      "past the read end yields a block with negative size / a corrected alignment outside the read")
-    ctx.floor("B6", "insertions of annotated introns into the corrected chain", n, 4)
+    ctx.floor("B6", "insertions of annotated introns into the corrected chain", n, 3)
 
 
 def run(prog, ctx):
